@@ -788,3 +788,130 @@ class CacheKeysRight(CacheKeysOwn):
 
 
 CONTRACTS += [CacheKeysOwn, CacheKeysRight]
+
+
+# ---------------------------------------------------------------------------------------------------------------------
+# C05 / C02: for one binding, an operand's results come from the result cache or from evaluating it - never both
+class ReplayOrEvaluate(LibModel):
+    """AND._evaluate__ (control flow around the result cache only; what the rows are is the subject of the interface
+    contract, cache off).  For every row of the left operand: (1) results are replayed from right_cache only after a
+    coverage check of that very binding on that very cache succeeded; (2) once the results for a binding were replayed, the right operand is not evaluated for it as well (the rows
+    would come twice: C02 'no row is returned twice').  The streams' contents are not looked at here (the right operand's
+    loop is skipped)."""
+    qual = 'symbolic:AND._evaluate__'
+    cls = 'AND'
+    props = ('C05', 'C02')
+    modes = ('sound',)
+    own_cache = False
+    selector_clause = False      # (rule construction never puts a conclusion selector below a conjunction)
+    trusted = ("only the control flow around cache.check / replay / evaluate is followed here; the rows themselves are the "
+               "subject of the interface contract (ANDEval, ElseIfEval, ComparatorEval) and of CacheReplay",)
+
+    def modenv(self):
+        return base_modenv()
+
+    def setup(self, eng):
+        st = State()
+        st.fields = init_fields()
+        self.n = z3.Const('self', Z.Node)
+        st.locals['self'] = ZV(self.n, 'node')
+        st.ghost['self'] = self.n
+        st.locals['sources'] = eng.new_dict(st, Z.ZMap.fresh('sources'))
+        st.locals['yield_when_false'] = ZV(z3.Const('ywf', Z.B), 'bool')
+        st.ghost['covered'] = {}          # (which cache, dict ref) -> the boolean the coverage check returned
+        st.ghost['replayed'] = frozenset()
+        return [st]
+
+    def f_is_caching_enabled(self, eng, st, args, kwargs, node):
+        return [(st, ZV(z3.Const('caching_enabled', Z.B), 'bool'))]
+
+    def obj_cache_check(self, eng, st, recv, args, kwargs, node):
+        if len(args) != 1 or not isinstance(args[0], D):
+            raise OutOfSubset("cache.check argument", node)
+        h = z3.FreshConst(Z.B, 'covered')
+        st = st.clone()
+        st.ghost['covered'] = {**st.ghost['covered'], (recv.data['which'], args[0].ref): h}
+        return [(st, ZV(h, 'bool'))]
+
+    def node_yield_final_output_from_cache(self, eng, st, recv, args, kwargs, node):
+        which = '_cache_'
+        cache = kwargs.get('cache', args[1] if len(args) > 1 else None)
+        if isinstance(cache, Obj) and cache.kind == 'cache':
+            which = cache.data['which']
+        d = args[0] if args else None
+        h = st.ghost['covered'].get((which, d.ref)) if isinstance(d, D) else None
+        eng.oblige(st, f"C05/replay-or-evaluate@L{node.lineno}/replay-only-after-a-successful-coverage-check-of-this-binding-on-this-cache",
+                   h if h is not None else z3.BoolVal(False), line=node.lineno)
+        if which == 'right_cache' and self.selector_clause:
+            eng.oblige(st, f"C05/replay-or-evaluate@L{node.lineno}/a-conclusion-selecting-operand-is-not-replayed",
+                       z3.Not(Z.selects_conclusions(Z.f_right(self.n))), line=node.lineno)
+        st = st.clone()
+        st.ghost['replayed'] = st.ghost['replayed'] | {d.ref if isinstance(d, D) else None}
+        return [(st, Obj('replay', {}))]
+
+    def node__evaluate__(self, eng, st, recv, args, kwargs, node):
+        d = args[0] if args else None
+        is_left = recv.t.eq(Z.f_left(self.n))
+        if self.own_cache:
+            clash = bool(st.ghost['replayed'])
+        else:
+            clash = (not is_left) and isinstance(d, D) and d.ref in st.ghost['replayed']
+        eng.oblige(st, f"C02/replay-or-evaluate@L{node.lineno}/not-evaluated-for-a-binding-whose-results-were-replayed",
+                   z3.BoolVal(not clash), line=node.lineno)
+        return [(st, Obj('left_stream' if (is_left and not self.own_cache) else 'skipped_stream', {}))]
+
+    def node__is_duplicate_output_(self, eng, st, recv, args, kwargs, node):
+        return [(st, ZV(z3.FreshConst(Z.B, 'dup'), 'bool'))]
+
+    def node_update_cache(self, eng, st, recv, args, kwargs, node):
+        return [(st, NONE)]
+
+    def node_get_first_second_operands(self, eng, st, recv, args, kwargs, node):
+        return [(st, Tup([ZV(Z.f_left(self.n), 'node'), ZV(Z.f_right(self.n), 'node')]))]
+
+    def yield_from(self, eng, st, src, ordinal, node):
+        return [Outcome(st)]
+
+    def abstract_loop(self, eng, st, s, it, ordinal):
+        if isinstance(it, Obj) and it.kind == 'skipped_stream':
+            return [Outcome(st)]
+        if isinstance(it, Obj) and it.kind == 'left_stream':
+            outs = [Outcome(st)]
+            b = st.clone()
+            row = eng.new_dict(b, Z.ZMap.fresh('left_row'))
+            b.fields['is_false'] = z3.FreshConst(b.fields['is_false'].sort(), 'is_false')
+            b.ghost['replayed'] = frozenset()
+            for b2 in eng.assign(s.target, row, b):
+                for o in eng.exec_block(s.body, b2):
+                    outs.append(Outcome(o.st) if o.sig in (NEXT, CONTINUE, BREAK) else o)
+            return outs
+        return super().abstract_loop(eng, st, s, it, ordinal)
+
+    def on_yield(self, eng, st, v, ordinal, node):
+        return [st]
+
+    def on_exit(self, eng, o):
+        pass
+
+    def signature(self, ob, model):
+        return {}
+
+
+class ReplayOrEvaluateElseIf(ReplayOrEvaluate):
+    """ElseIf._evaluate__: the same two clauses for the else-if's right operand (per false row of the left operand)."""
+    qual = 'symbolic:ElseIf._evaluate__'
+    cls = 'ElseIf'
+    props = ('C05', 'C02', 'C12')
+    selector_clause = True
+
+
+class ReplayOrEvaluateComparator(ReplayOrEvaluate):
+    """Comparator._evaluate__: the comparison's own cache - results are replayed only after a successful coverage check of
+    the incoming binding, and then neither operand is evaluated."""
+    qual = 'symbolic:Comparator._evaluate__'
+    cls = 'Comparator'
+    props = ('C05', 'C02')
+    own_cache = True
+
+
+CONTRACTS += [ReplayOrEvaluate, ReplayOrEvaluateElseIf, ReplayOrEvaluateComparator]
